@@ -3,33 +3,35 @@
 apply to /repo's working tree, run bin/check <property>, revert straight afterwards.
 usage: tools/seeded.py [name-substring ...] [--runs N] [--tier T] [--prop P (override property)]"""
 import subprocess, sys, os, json, time, glob
+REPO=os.environ.get("LSIM_REPO","/repo")
+VERIF=os.environ.get("LSIM_VERIF","/verif")
 def sh(c): return subprocess.run(c, shell=True, stdout=subprocess.PIPE, stderr=subprocess.STDOUT, text=True)
 def main():
     argv=sys.argv[1:]; opts={}
     for k in ("--runs","--tier","--prop"):
         if k in argv:
             i=argv.index(k); opts[k]=argv[i+1]; del argv[i:i+2]
-    if sh("git -C /repo status --porcelain --untracked-files=no").stdout.strip():
+    if sh(f"git -C {REPO} status --porcelain --untracked-files=no").stdout.strip():
         print("refusing: /repo has uncommitted changes"); return 2
     res=[]
-    for d in sorted(glob.glob("/verif/seeded/*/")):
+    for d in sorted(glob.glob(VERIF+"/seeded/*/")):
         name=os.path.basename(d.rstrip("/"))
         if argv and not any(a in name for a in argv): continue
         meta=json.load(open(d+"meta.json"))
         prop=opts.get("--prop", meta.get("property", name.split("-")[0]))
         t0=time.time()
         try:
-            a=sh(f"git -C /repo apply {d}patch.diff")
+            a=sh(f"git -C {REPO} apply {d}patch.diff")
             if a.returncode!=0:
                 print(f"{name}: patch does not apply: {a.stdout}"); continue
             extra="".join(f" {k} {v}" for k,v in opts.items() if k!="--prop")
-            r=sh(f"cd /verif && bin/check {prop}{extra}")
+            r=sh(f"cd {VERIF} && bin/check {prop}{extra}")
         finally:
-            sh("git -C /repo checkout -- . && git -C /repo clean -fdq rust/core/src")
+            sh(f"git -C {REPO} checkout -- . && git -C {REPO} clean -fdq rust/core/src")
         got="caught" if (r.returncode==1 and f"VIOLATION property={prop}" in r.stdout) else ("quiet" if r.returncode==0 else f"exit{r.returncode}")
         keys=[l.split("[")[1].split("]")[0] for l in r.stdout.splitlines() if l.startswith("violation of ") and "[" in l]
         print(f"{name:8} {prop} {got:7} {time.time()-t0:6.1f}s {','.join(keys)}"); sys.stdout.flush()
         if got.startswith("exit"): print("\n".join(r.stdout.splitlines()[-12:]))
         res.append({"name":name,"property":prop,"result":got,"keys":keys,"opts":opts})
-    json.dump(res,open("/verif/target/seeded_results.json","w"),indent=1)
+    json.dump(res,open(VERIF+"/target/seeded_results.json","w"),indent=1)
 main()
